@@ -282,6 +282,31 @@ pub fn build_world(seed: u64, idx: u64, out: &mut RunOut) -> World {
     4 => (Node::File(nonutf8(&mut rf, schema_text.as_bytes())), "non-utf8"),
     _ => (Node::File(Vec::new()), "empty"),
   };
+  // the schema file framed the way editors leave files: BOM, CRLF, exotic white space at either end, a
+  // comment without a final newline - the tool must hand the parser exactly the file's text
+  let (schema, schema_state) = match (&schema, schema_state) {
+    (Node::File(b), "valid") | (Node::File(b), "invalid") if rf.chance(1, 6) => {
+      let mut t = b.clone();
+      match rf.below(6) {
+        0 => {
+          let mut x = vec![0xef, 0xbb, 0xbf];
+          x.extend_from_slice(&t);
+          t = x;
+        }
+        1 => t = String::from_utf8_lossy(&t).replace('\n', "\r\n").into_bytes(),
+        2 => t.extend_from_slice("\u{c}".as_bytes()),
+        3 => {
+          let mut x = "\u{a0}".as_bytes().to_vec();
+          x.extend_from_slice(&t);
+          t = x;
+        }
+        4 => t.extend_from_slice(b"; trailing comment without newline"),
+        _ => t.extend_from_slice("\u{2028}".as_bytes()),
+      }
+      (Node::File(t), schema_state)
+    }
+    _ => (schema.clone(), schema_state),
+  };
   out.fault(match schema_state {
     "valid" => "schema_valid",
     "invalid" => "schema_invalid",
@@ -334,7 +359,19 @@ pub fn build_world(seed: u64, idx: u64, out: &mut RunOut) -> World {
             // the same document as real producers frame it: BOM, CRLF line ends, trailing / leading white
             // space, an embedded NUL - whatever the tool does to the bytes, the library must be given the same
             let mut b = bytes.clone();
-            match rf.below(6) {
+            match rf.below(8) {
+              6 | 7 => {
+                // white space that is NOT white space to the JSON / CSV grammar, before or after the document:
+                // form feed, vertical tab, NEL, NBSP, LINE SEPARATOR, IDEOGRAPHIC SPACE, ZERO WIDTH SPACE
+                let ws = *rf.pick(&["\u{c}", "\u{b}", "\u{85}", "\u{a0}", "\u{2028}", "\u{3000}", "\u{200b}", "\u{feff}"]);
+                if rf.coin() {
+                  b.extend_from_slice(ws.as_bytes());
+                } else {
+                  let mut x = ws.as_bytes().to_vec();
+                  x.extend_from_slice(&b);
+                  b = x;
+                }
+              }
               0 => {
                 let mut x = vec![0xef, 0xbb, 0xbf];
                 x.extend_from_slice(&b);
